@@ -1,6 +1,7 @@
 from vf.props.common import *
 from vf.props.e4cfg import *
 LEVEL = 'other'
+JOBS = 6      # each obligation runs a portfolio of z3 processes on big-integer polynomials: memory-bound, keep the machine below saturation
 EXPLANATION = ('Hybrid (see C02): taps by concrete execution of the real library, deciding step by z3 over the frequency continuum: for every '
                'in-band frequency (not probe tones) the whole-conversion prototype of the small-ratio configurations has gain within the '
                'roll-off class of 1 (<= 0.01 dB / <= 0.35 dB / 2^(1-bits)), is symmetric about the input instant for linear phase (so the '
